@@ -91,7 +91,7 @@ impl Scenario for C19Scn {
         "C19"
     }
     fn rule(&self) -> &'static str {
-        "plan = 1..5 caller tasks x 1..3 sequential calls each (call_method / Proxy::call / no-reply), per call the peer's decision (return / error / never), simulated delay, duplicate reply, stray reply with an unknown serial, unrelated signal, optional method timeout on the simulated clock, optional fault (inbound EOF or ECONNRESET at a byte offset, peer crash at a time; a caller task cancelled at a seeded await point - while sending or while waiting - whose unfinished calls are not judged while everybody else's are), read/write splits, latency, task stalls on callers and on the socket reader; oracle per call: exactly the reply carrying its own token, or an error when faults/timeouts say so, timeout not before its duration elapsed, nothing left pending once the link died or a timeout is configured; non-trivial = at least two calls were outstanding at the peer and the replies left in a different order than the calls arrived, or a fault fired while a call was outstanding"
+        "plan = 1..5 caller tasks (one run in 20: 9..14, more than the method-return channel of 8 holds) x 1..3 sequential calls each (call_method / Proxy::call / no-reply), per call the peer's decision (return / error / never), simulated delay, duplicate reply, stray reply with an unknown serial, unrelated signal, optional method timeout on the simulated clock, optional fault (inbound EOF or ECONNRESET at a byte offset, peer crash at a time; a caller task cancelled at a seeded await point - while sending or while waiting - whose unfinished calls are not judged while everybody else's are), read/write splits, latency, task stalls on callers and on the socket reader; oracle per call: exactly the reply carrying its own token, or an error when faults/timeouts say so, timeout not before its duration elapsed, nothing left pending once the link died or a timeout is configured; non-trivial = at least two calls were outstanding at the peer and the replies left in a different order than the calls arrived, or a fault fired while a call was outstanding"
     }
     fn runs(&self, tier: Tier) -> u64 {
         match tier {
@@ -107,7 +107,10 @@ impl Scenario for C19Scn {
     }
 
     fn generate(&self, rng: &mut Rng, _idx: u64, _tier: Tier) -> (SchedCfg, Value) {
-        let nc = rng.range(1, 5) as usize;
+        // one run in 20: more outstanding calls than the method-return channel holds (8), so that the socket
+        // reader has to wait for callers to take their replies
+        let flood = rng.chance(1, 20);
+        let nc = if flood { rng.range(9, 14) as usize } else { rng.range(1, 5) as usize };
         let timeout_ms = if rng.chance(1, 3) { Some(*rng.pick(&[1u32, 20, 25_000])) } else { None };
         let mut callers = vec![];
         for _ in 0..nc {
